@@ -259,10 +259,20 @@ func joinFilter(a []any, sep func(string) string) any {
 	s := sep(" ")
 	for _, v := range a {
 		if v != nil {
-			ss = append(ss, fmt.Sprint(v))
+			ss = append(ss, fmt.Sprint(indirect(v)))
 		}
 	}
 	return strings.Join(ss, s)
+}
+
+// indirect follows non-nil pointers, so that a pointer element is joined as
+// the value it points to (as {{ x }} prints it) rather than as its address.
+func indirect(v any) any {
+	rv := reflect.ValueOf(v)
+	for rv.Kind() == reflect.Ptr && !rv.IsNil() {
+		rv = rv.Elem()
+	}
+	return rv.Interface()
 }
 
 func reverseFilter(a []any) any {
